@@ -42,6 +42,14 @@ CNT = z3.Function("CNT", z3.IntSort(), z3.IntSort())  # number of selected eleme
 MISSING = z3.Int("initial_missing")
 
 
+def _loc(env, name):
+    """a loop-carried local the invariant is phrased over; if an edit renamed it the unit is undecided (exit 2), not crashed"""
+    try:
+        return env.vars[name]
+    except KeyError:
+        raise Unsupported(f"the loop invariant is keyed to the local variable `{name}`, which the loop no longer has") from None
+
+
 def out_n(h):
     return h.f("GenOut", "n", OUT)
 
@@ -182,7 +190,7 @@ def reduce_loop_inv(ip, env):
     h = H(ip.st)
     k = ip.ctx.loop_k  # absolute position of the next element in the source
     i = k - u.lo0  # number of input elements consumed so far
-    value = ip.term(env.vars["value"], OBJ)
+    value = ip.term(_loc(env, "value"), OBJ)
     return [
         ("value_is_the_fold_of_the_elements_consumed_so_far", z3.And(value == ACC(i - u.off), i >= u.off, k <= u.hi0, src_unchanged(u, h))),
     ]
@@ -256,7 +264,7 @@ def acc_loop_inv(ip, env):
     u = ip.ctx.unit
     h = H(ip.st)
     i = u.consumed(ip)
-    total = ip.term(env.vars["total"], OBJ)
+    total = ip.term(_loc(env, "total"), OBJ)
     j = z3.Int(ip.st.uniq("j"))
     return [
         ("total_is_the_last_partial_fold_and_every_partial_fold_so_far_has_been_yielded_in_order", z3.And(i >= u.off, ip.ctx.loop_k <= u.hi0, total == ACC(i - u.off), out_n(h) == i - u.off + 1, forall([j], z3.Implies(z3.And(0 <= j, j < out_n(h)), out_at(h, j) == ACC(j)), patterns=[out_at(h, j)]), u.out_inv_common(h))),
@@ -305,7 +313,7 @@ def takewhile_loop_inv(ip, env):
     h = H(ip.st)
     i = u.consumed(ip)
     j = z3.Int(ip.st.uniq("j"))
-    ey = ip.truth(env.vars["element_yielded"])
+    ey = ip.truth(_loc(env, "element_yielded"))
     ey = z3.BoolVal(ey) if isinstance(ey, bool) else ey
     return [
         ("every_element_so_far_satisfied_the_predicate_and_was_yielded_in_order", z3.And(i >= 0, ip.ctx.loop_k <= u.hi0, out_n(h) == i, ey == (i > 0), forall([j], z3.Implies(z3.And(0 <= j, j < i), z3.And(PRED(u.x(j)), out_at(h, j) == u.x(j))), patterns=[out_at(h, j)]), u.out_inv_common(h))),
@@ -340,9 +348,9 @@ def dropwhile_loop_inv(ip, env):
     h = H(ip.st)
     i = u.consumed(ip)
     j = z3.Int(ip.st.uniq("j"))
-    dr = ip.truth(env.vars["dropping"])
+    dr = ip.truth(_loc(env, "dropping"))
     dr = z3.BoolVal(dr) if isinstance(dr, bool) else dr
-    ey = ip.truth(env.vars["element_yielded"])
+    ey = ip.truth(_loc(env, "element_yielded"))
     ey = z3.BoolVal(ey) if isinstance(ey, bool) else ey
     m = i - out_n(h)  # the length of the dropped prefix, once dropping has ended
     return [
@@ -395,7 +403,7 @@ def filterfalse_loop_inv(ip, env):
     h = H(ip.st)
     i = u.consumed(ip)
     j = z3.Int(ip.st.uniq("j"))
-    ey = ip.truth(env.vars["element_yielded"])
+    ey = ip.truth(_loc(env, "element_yielded"))
     ey = z3.BoolVal(ey) if isinstance(ey, bool) else ey
     return [
         (
@@ -455,8 +463,8 @@ def pairwise_loop_inv(ip, env):
     h = H(ip.st)
     i = u.consumed(ip)
     j = z3.Int(ip.st.uniq("j"))
-    prev = ip.term(env.vars["previous"], OBJ)
-    ey = ip.truth(env.vars["element_yielded"])
+    prev = ip.term(_loc(env, "previous"), OBJ)
+    ey = ip.truth(_loc(env, "element_yielded"))
     ey = z3.BoolVal(ey) if isinstance(ey, bool) else ey
     return [
         ("previous_is_the_last_element_consumed_and_every_adjacent_pair_so_far_was_yielded", z3.And(i >= 1, ip.ctx.loop_k <= u.hi0, u.out_inv_common(h), prev == u.x(i - 1), out_n(h) == i - 1, ey == (i > 1), forall([j], z3.Implies(z3.And(0 <= j, j < out_n(h)), out_at(h, j) == PAIR(u.x(j), u.x(j + 1))), patterns=[out_at(h, j)]))),
@@ -502,7 +510,7 @@ def repeat_forever_inv(ip, env):
 def repeat_counted_inv(ip, env):
     u = ip.ctx.unit
     h = H(ip.st)
-    rem = ip.term(env.vars["remaining"], INT)
+    rem = ip.term(_loc(env, "remaining"), INT)
     return [("the_element_was_yielded_times_minus_remaining_times", z3.And(rem >= 0, rem <= u.times.t, out_n(h) == u.times.t - rem, all_out_are(h, u.element.t)))]
 
 
@@ -542,7 +550,7 @@ class RepeatUnit(GenUnit):
 def count_inv(ip, env):
     u = ip.ctx.unit
     h = H(ip.st)
-    n = ip.term(env.vars["n"], INT)
+    n = ip.term(_loc(env, "n"), INT)
     j = z3.Int(ip.st.uniq("j"))
     return [("the_jth_value_yielded_is_start_plus_j_times_step_and_n_is_the_next_one", z3.And(out_n(h) >= 0, n == u.start.t + out_n(h) * u.step.t, forall([j], z3.Implies(z3.And(0 <= j, j < out_n(h)), out_at(h, j) == u.start.t + j * u.step.t), patterns=[out_at(h, j)])))]
 
@@ -609,8 +617,8 @@ def islice_inv(ip, env):
     u = ip.ctx.unit
     h = H(ip.st)
     i = u.consumed_of(h)
-    index = ip.term(env.vars["index"], INT)
-    ey = ip.truth(env.vars["element_yielded"])
+    index = ip.term(_loc(env, "index"), INT)
+    ey = ip.truth(_loc(env, "element_yielded"))
     ey = z3.BoolVal(ey) if isinstance(ey, bool) else ey
     return [("index_counts_the_elements_consumed_and_exactly_the_selected_ones_among_them_were_yielded", z3.And(index == i, i >= 0, i <= u.n, u.b is None or i <= u.b, src_unchanged(u, h), ey == (out_n(h) > 0), selection(u, h, i)))]
 
@@ -688,7 +696,7 @@ def compress_inv(ip, env):
     h = H(ip.st)
     i = u.consumed_of(h)
     si = h.dq(SRC.cls, u.sel.t).lo - u.slo0
-    ey = ip.truth(env.vars["element_yielded"])
+    ey = ip.truth(_loc(env, "element_yielded"))
     ey = z3.BoolVal(ey) if isinstance(ey, bool) else ey
     sd = h.dq(SRC.cls, u.sel.t)
     return [("data_and_selectors_advance_together_and_exactly_the_selected_data_were_yielded", z3.And(i == si, i >= 0, i <= u.n, i <= u.shi0 - u.slo0, src_unchanged(u, h), sd.hi == u.shi0, sd.data == u.sdata0, ey == (out_n(h) > 0), selection(u, h, i)))]
@@ -1353,21 +1361,21 @@ def cycle_phase1_inv(ip, env):
     u = ip.ctx.unit
     h = H(ip.st)
     i = u.consumed(ip)
-    saved = ip.term(env.vars["saved"], SAVED)
+    saved = ip.term(_loc(env, "saved"), SAVED)
     return [("every_element_so_far_was_saved_and_yielded", z3.And(i >= 0, ip.ctx.loop_k <= u.hi0, out_n(h) == i, z3.Implies(i > 0, last_pos(h) == i - 1), saved_is_input(u, h, saved, i), u.out_inv_common(h)))]
 
 
 def cycle_outer_inv(ip, env):
     u = ip.ctx.unit
     h = H(ip.st)
-    saved = ip.term(env.vars["saved"], SAVED)
+    saved = ip.term(_loc(env, "saved"), SAVED)
     return [("whole_rounds_have_been_yielded", z3.And(u.n >= 1, out_n(h) > 0, last_pos(h) == u.n - 1, saved_is_input(u, h, saved, u.n), src_unchanged(u, h)))]
 
 
 def cycle_inner_inv(ip, env):
     u = ip.ctx.unit
     h = H(ip.st)
-    saved = ip.term(env.vars["saved"], SAVED)
+    saved = ip.term(_loc(env, "saved"), SAVED)
     j = ip.ctx.loop_k - h.dq(SAVED.cls, saved).lo
     return [("a_round_has_been_yielded_up_to_the_current_element", z3.And(u.n >= 1, 0 <= j, j <= u.n, out_n(h) > 0, last_pos(h) == z3.If(j == 0, u.n - 1, j - 1), saved_is_input(u, h, saved, u.n), src_unchanged(u, h)))]
 
@@ -1458,7 +1466,7 @@ def batched_inner_inv(ip, env):
     h = H(ip.st)
     c = h.dq(SRC.cls, u.src.t).lo - u.lo0
     k = ip.ctx.loop_k
-    batch = ip.term(env.vars["batch"], SAVED)
+    batch = ip.term(_loc(env, "batch"), SAVED)
     return [("the_batch_holds_the_inputs_consumed_since_the_previous_batch_ended", z3.And(u.nb.t >= 1, 0 <= k, k <= u.nb.t, c == last_pos(h) + k, c <= u.n, last_pos(h) >= 0, z3.Not(h.f("GenOut", "short", OUT)), out_n(h) >= 0, batch_is_slice(u, h, batch, last_pos(h), k), src_unchanged(u, h)))]
 
 
@@ -1564,7 +1572,7 @@ def starmap_inv(ip, env):
     h = H(ip.st)
     i = u.consumed(ip)
     j = z3.Int(ip.st.uniq("j"))
-    ry = ip.truth(env.vars["result_yielded"])
+    ry = ip.truth(_loc(env, "result_yielded"))
     ry = z3.BoolVal(ry) if isinstance(ry, bool) else ry
     return [("one_result_per_input_element_so_far_in_order", z3.And(i >= 0, ip.ctx.loop_k <= u.hi0, out_n(h) == i, ry == (i > 0), forall([j], z3.Implies(z3.And(0 <= j, j < i), out_at(h, j) == APP1(u.x(j))), patterns=[out_at(h, j)]), u.out_inv_common(h)))]
 
@@ -1757,8 +1765,8 @@ def groupby_inv(ip, env):
     h = H(ip.st)
     i = u.consumed(ip)
     g = last_pos(h)
-    values = ip.term(env.vars["values"], SAVED)
-    gk = ip.term(env.vars["group_key"], OBJ)
+    values = ip.term(_loc(env, "values"), SAVED)
+    gk = ip.term(_loc(env, "group_key"), OBJ)
     q = z3.Int(ip.st.uniq("q"))
     return [("values_holds_the_run_since_the_last_group_ended_and_all_its_keys_equal_group_key", z3.And(0 <= g, g < i, ip.ctx.loop_k <= u.hi0, gk == u.key_of(u.x(g)), batch_is_slice(u, h, values, g, i - g), forall([q], z3.Implies(z3.And(g <= q, q < i), u.key_of(u.x(q)) == gk), patterns=[u.x(q)]), out_n(h) >= 0, u.out_inv_common(h)))]
 
@@ -2045,7 +2053,7 @@ def chain_outer_inv(ip, env):
     u.outer_k = ip.ctx.loop_k
     a = ip.ctx.loop_k - u.olo
     la, lb = st.get("ChainGhost", "la", CG), st.get("ChainGhost", "lb", CG)
-    ey = ip.truth(env.vars["element_yielded"])
+    ey = ip.truth(_loc(env, "element_yielded"))
     ey = z3.BoolVal(ey) if isinstance(ey, bool) else ey
     return [("everything_before_the_current_inner_source_has_been_yielded", z3.And(0 <= a, ip.ctx.loop_k <= u.ohi, la >= -1, ey == (la >= 0), u.between(st, la, lb, a), u.sources_unchanged(h)))]
 
@@ -2055,10 +2063,10 @@ def chain_inner_inv(ip, env):
     st = ip.st
     h = H(st)
     a = u.outer_k - u.olo
-    r = ip.term(env.vars["iterable"], SRC)
+    r = ip.term(_loc(env, "iterable"), SRC)
     b = ip.ctx.loop_k - z3.Select(u.e_lo, r)
     la, lb = st.get("ChainGhost", "la", CG), st.get("ChainGhost", "lb", CG)
-    ey = ip.truth(env.vars["element_yielded"])
+    ey = ip.truth(_loc(env, "element_yielded"))
     ey = z3.BoolVal(ey) if isinstance(ey, bool) else ey
     return [("the_current_inner_source_has_been_yielded_up_to_the_current_element", z3.And(0 <= a, a < u.m(), r == u.inner(a), 0 <= b, b <= u.length(a), la >= -1, ey == (la >= 0), z3.If(b == 0, u.between(st, la, lb, a), z3.And(la == a, lb == b - 1)), u.sources_unchanged(h)))]
 
